@@ -255,7 +255,7 @@ func subtleSpecs(seed uint64) []subtleSpec {
 					}
 					return "ok"
 				})
-				t.add("ctr-dec-fixed", ct, canon(pt), func(*hlib.Rng) string {
+				t.addX("ctr-dec-fixed", ct, pt, canon(pt), func(*hlib.Rng) string {
 					got, err := c.Decrypt(ct)
 					if err != nil {
 						return "err:" + errStr(err)
@@ -286,14 +286,14 @@ func subtleSpecs(seed uint64) []subtleSpec {
 					}
 					return canon(x)
 				})
-				t.add("unwrap-fixed", ct, canon(pt), func(*hlib.Rng) string {
+				t.addX("unwrap-fixed", ct, pt, canon(pt), func(*hlib.Rng) string {
 					x, err := w.Unwrap(ct)
 					if err != nil {
 						return "err:" + errStr(err)
 					}
 					return canon(x)
 				})
-				t.add("unwrap-bad", bad, "err", func(*hlib.Rng) string {
+				t.addX("unwrap-bad", bad, pt, "err", func(*hlib.Rng) string {
 					x, err := w.Unwrap(bad)
 					if err != nil {
 						return "err"
